@@ -118,6 +118,10 @@ def _run_worker(args):
         res['wall'] = time.time() - t0
         return res
     except BaseException as e:   # noqa
+        if type(e).__name__ == 'Inconclusive':
+            return dict(config=str(config), functions={}, stats={}, notes=[], wall=time.time() - t0,
+                        obs=[Ob('exploration-cap', str(config), 'unknown', time.time() - t0, True, None,
+                                f'exploration stopped: {e}').d])
         return dict(config=str(config), obs=[], functions={}, stats={}, notes=[],
                     error=f'{type(e).__name__}: {e}\n{traceback.format_exc()}', wall=time.time() - t0)
 
